@@ -758,6 +758,11 @@ class NetworkGraph(AbstractBaseIR):
             if s_str == t_str:
                 s_str = f'{svar}_source{i}'
 
+            # a coupling function is evaluated per (target, source) pair: a global (scalar) weight that comes with an
+            # edge template is realized as a uniform weight matrix (handled by case 0b / 0c below)
+            if isinstance(weight, np.ndarray) and weight.ndim == 0 and edge_ir is not None:
+                weight = np.full((len(self[tnode]), len(self[snode])), float(weight))
+
             # case 0g: global edge — weight is a 0-d (scalar) array (used by
             # Connectivity for uniform all-to-all coupling). Realized as a reduction
             # t = w * vsum(source), broadcast to all targets, WITHOUT ever forming an
